@@ -279,7 +279,8 @@ def gen_case(rng, it, robust):
     kinds = ["season", "noise", "walk", "steps", "spiky", "smallrange", "neg", "const", "linear", "flatspikes", "flatspikes", "flatspikes"]
     kind = kinds[it % len(kinds)]
     if kind == "const":
-        y = np.full(n, float(rng.integers(-5000, 5000)))
+        # 0 is the constant people special-case (an all-dry pixel): every fit, residual and score is exactly 0.0
+        y = np.full(n, float([0, rng.integers(-5000, 5000), 0, 1, -1, rng.integers(-5000, 5000)][(it // 12) % 6]))
     elif kind == "linear":
         y = (rng.integers(-20, 21) * np.arange(n) + rng.integers(-3000, 3000)).astype(float)
     elif kind == "flatspikes":
